@@ -174,3 +174,42 @@ pub open spec fn key_dst_eff<CS: BbsCiphersuite>(key_dst: Option<&[u8]>) -> Seq<
 pub open spec fn p1_spec<CS: BbsCiphersuite>() -> G1Projective {
     g1_from_hex(CS::P1@)->0
 }
+
+// ---- Sign / Verify (3.5.1, 3.5.2) over octet-string messages -------------------------------------------
+pub open spec fn opt_msgs(o: Option<&[Vec<u8>]>) -> Seq<Vec<u8>> {
+    match o { Some(s) => s@, None => Seq::empty() }
+}
+
+pub open spec fn msgs_to_scalars_spec<CS: BbsCiphersuite>(msgs: Seq<Vec<u8>>, api_id: Seq<u8>) -> Seq<Scalar> {
+    Seq::new(msgs.len(), |i: int| msg_scalar_spec::<CS>(msgs[i]@, api_id))
+}
+
+/// e of CoreSign for generators `gens` (gens[0] = Q_1, gens[1..] = H)
+pub open spec fn core_sign_e<CS: BbsCiphersuite>(sk: Scalar, pk: G2Projective, gens: Seq<G1Projective>, m: Seq<Scalar>, header: Seq<u8>, api_id: Seq<u8>) -> Scalar {
+    sign_e_spec::<CS>(sk, m, domain_spec::<CS>(pk, gens[0], gens.subrange(1, gens.len() as int), header, api_id), api_id)
+}
+
+/// A of CoreSign: B * 1/(SK + e)
+pub open spec fn core_sign_a<CS: BbsCiphersuite>(sk: Scalar, pk: G2Projective, p1: G1Projective, gens: Seq<G1Projective>, m: Seq<Scalar>, header: Seq<u8>, api_id: Seq<u8>) -> G1Projective {
+    let h = gens.subrange(1, gens.len() as int);
+    let domain = domain_spec::<CS>(pk, gens[0], h, header, api_id);
+    g1_mul(b_spec(p1, gens[0], domain, h, m), s_inv(s_add(sk, core_sign_e::<CS>(sk, pk, gens, m, header, api_id))))
+}
+
+pub open spec fn sign_spec<CS: BbsCiphersuite>(sk: Scalar, pk: G2Projective, msgs: Seq<Vec<u8>>, header: Seq<u8>) -> BBSplusSignature {
+    let gens = generators_spec::<CS>((msgs.len() + 1) as nat, CS::API_ID@);
+    let m = msgs_to_scalars_spec::<CS>(msgs, CS::API_ID@);
+    BBSplusSignature {
+        A: core_sign_a::<CS>(sk, pk, p1_spec::<CS>(), gens, m, header, CS::API_ID@),
+        e: core_sign_e::<CS>(sk, pk, gens, m, header, CS::API_ID@),
+    }
+}
+
+pub open spec fn sign_hnz<CS: BbsCiphersuite>(sk: Scalar, pk: G2Projective, msgs: Seq<Vec<u8>>, header: Seq<u8>) -> bool {
+    s_add(sk, sign_spec::<CS>(sk, pk, msgs, header).e) != s_zero()
+}
+
+pub open spec fn verify_spec<CS: BbsCiphersuite>(pk: G2Projective, sig: BBSplusSignature, msgs: Seq<Vec<u8>>, header: Seq<u8>) -> bool {
+    core_verify_spec::<CS>(pk, sig, msgs_to_scalars_spec::<CS>(msgs, CS::API_ID@), p1_spec::<CS>(),
+        generators_spec::<CS>((msgs.len() + 1) as nat, CS::API_ID@), header, CS::API_ID@)
+}
